@@ -163,7 +163,7 @@ theorem stateTraceOne_mono (rho : CMat) (atol atol' : Rat) (h : atol ≤ atol')
     exact isCloseCR_mono _ _ _ _ _ h hc
 
 theorem mk_ok_iff (req phys : Bool) : mk req phys = Ctor.ok ↔ (req = true → phys = true) := by
-  cases req <;> cases phys <;> simp [mk]
+  cases req <;> cases phys <;> simp [mk, mkWith, state_ctor_raises]
 
 theorem physical_iff (a b : Bool) : physical a b = true ↔ a = true ∧ b = true := by
   simp [physical]
@@ -382,5 +382,78 @@ theorem eigenvalues_ge_neg_iff_posSemidef {𝕜 : Type*} [RCLike 𝕜] {A : Matr
     linarith
 
 end spectral
+
+/-! ## the Mathlib matrix a model matrix denotes -/
+section bridge
+open Matrix
+/-- the complex number a model entry denotes -/
+noncomputable def toC (z : C) : ℂ := ((z.1 : ℝ) : ℂ) + ((z.2 : ℝ) : ℂ) * Complex.I
+
+/-- the Mathlib matrix a model matrix denotes (row-major) -/
+noncomputable def CMat.toMatrix (M : CMat) : Matrix (Fin M.d) (Fin M.d) ℂ :=
+  Matrix.of fun i j => toC (M.e.getD (i.val * M.d + j.val) (0, 0))
+
+theorem toC_eq_star_iff (a b : C) : toC a = star (toC b) ↔ a = (b.1, -b.2) := by
+  unfold toC
+  rw [Complex.ext_iff]
+  simp only [Complex.add_re, Complex.ofReal_re, Complex.mul_re, Complex.I_re, mul_zero, Complex.ofReal_im,
+    Complex.I_im, mul_one, sub_self, add_zero, Complex.add_im, Complex.mul_im, zero_add, Complex.star_def,
+    Complex.conj_re, Complex.conj_im]
+  constructor
+  · rintro ⟨h1, h2⟩
+    have h1' : a.1 = b.1 := by exact_mod_cast h1
+    have h2' : a.2 = -b.2 := by exact_mod_cast h2
+    exact Prod.ext h1' h2'
+  · intro h; rw [h]; simp
+
+theorem isHermitian_of_toMatrix (M : CMat) (atol : Rat) (hok : M.ok = true) (ha : 0 ≤ atol)
+    (hH : M.toMatrix.IsHermitian) : isHermitian M atol = some true := by
+  have hr : mutil_is_hermitian_rtol = 0 := by decide
+  have hlen : M.e.length = M.d * M.d := by simpa [CMat.ok] using hok
+  -- the adjoint list
+  have hadj : M.adjoint = some ((List.range (M.d * M.d)).map fun k =>
+      ((M.e.getD ((k % M.d) * M.d + k / M.d) (0, 0)).1, -(M.e.getD ((k % M.d) * M.d + k / M.d) (0, 0)).2)) := by
+    unfold CMat.adjoint
+    apply mapM_some_map
+    intro k hk
+    rw [List.mem_range] at hk
+    have hd : 0 < M.d := Nat.pos_of_ne_zero (by rintro h; rw [h] at hk; simp at hk)
+    have hq : k / M.d < M.d := Nat.div_lt_of_lt_mul (by simpa [Nat.mul_comm] using hk)
+    have hrm : k % M.d < M.d := Nat.mod_lt _ hd
+    have hidx : k % M.d * M.d + k / M.d < M.e.length := by
+      rw [hlen]
+      calc k % M.d * M.d + k / M.d < k % M.d * M.d + M.d := by omega
+        _ = (k % M.d + 1) * M.d := by ring
+        _ ≤ M.d * M.d := Nat.mul_le_mul_right _ hrm
+    simp [List.getD_eq_getElem?_getD, List.getElem?_eq_getElem hidx]
+  unfold isHermitian
+  simp only [hok, Bool.not_true, Bool.false_eq_true, ↓reduceIte, hadj, Option.bind_eq_bind, Option.bind_some]
+  apply allSome_of_all
+  intro x hx
+  rw [List.mem_map] at hx
+  obtain ⟨⟨a, b⟩, hab, rfl⟩ := hx
+  obtain ⟨k, hk, hkk⟩ := List.mem_iff_getElem.1 hab
+  simp only [List.getElem_zip, List.getElem_map, List.getElem_range, Prod.mk.injEq] at hkk
+  have hk' : k < M.d * M.d := by simp at hk; omega
+  have hd : 0 < M.d := Nat.pos_of_ne_zero (by rintro h; rw [h] at hk'; simp at hk')
+  have hq : k / M.d < M.d := Nat.div_lt_of_lt_mul (by simpa [Nat.mul_comm] using hk')
+  have hrm : k % M.d < M.d := Nat.mod_lt _ hd
+  have hent := congrFun (congrFun hH ⟨k / M.d, hq⟩) ⟨k % M.d, hrm⟩
+  simp only [Matrix.conjTranspose_apply, CMat.toMatrix, Matrix.of_apply] at hent
+  have hk2 : k / M.d * M.d + k % M.d = k := by rw [Nat.mul_comm]; exact Nat.div_add_mod k M.d
+  rw [hk2] at hent
+  have hak : M.e.getD k (0, 0) = a := by
+    rw [List.getD_eq_getElem?_getD, List.getElem?_eq_getElem (by omega)]; exact hkk.1
+  rw [hak] at hent
+  have := (toC_eq_star_iff a _).1 hent.symm
+  have hb : a = b := by rw [this, ← hkk.2]
+  subst hb
+  simp [isCloseCC, hr, ha, mul_self_nonneg]
+
+theorem zeroMat_toMatrix : (⟨2, [(0,0),(0,0),(0,0),(0,0)]⟩ : CMat).toMatrix = 0 := by
+  ext i j
+  fin_cases i <;> fin_cases j <;> simp [CMat.toMatrix, toC]
+
+end bridge
 
 end QM.C01
